@@ -673,11 +673,20 @@ pub fn run_one(out: &mut Out, linter: &deno_lint::linter::Linter, rng: &mut Rng,
       if seq.len() > 1 {
         for (i, one) in seq.iter().enumerate() {
           let (src1, _) = render(std::slice::from_ref(one), &[if forms[i] == Form::Literal { Form::New2 } else { forms[i] }], &quotes[i..i + 1]);
-          if let Outcome::Ok(d1) = lint(linter, &src1, "js") {
+          // on a fresh thread with a fresh linter: neither instance state nor thread-local state can carry over
+          let alone_res = std::thread::spawn(move || {
+            let fresh = mk_linter(rules_by_codes(&[RULE.to_string()]), &Words::default());
+            lint(&fresh, &src1, "js")
+          })
+          .join()
+          .unwrap_or(Outcome::Panic("thread".into()));
+          if let Outcome::Ok(d1) = alone_res {
             let alone = d1.iter().any(|d| d.code == RULE);
             if alone != reported[i] {
               out.found("C12", if reported[i] { "verdict-depends-on-earlier-regexes:reported-only-in-sequence" } else { "verdict-depends-on-earlier-regexes:reported-only-alone" }, &src,
                 json!({"meta": meta, "index": i, "pattern": one.0, "flags": one.1, "in_sequence": reported[i], "alone": alone}));
+              // the same observation is a violation of C02 (results depend on what was linted before)
+              out.found("C02", "regex-verdict-depends-on-history", &src, json!({"meta": meta, "index": i, "pattern": one.0, "flags": one.1, "in_sequence": reported[i], "alone_on_fresh_thread": alone}));
             }
           }
         }
@@ -713,6 +722,27 @@ pub fn run(args: &Args) {
     let kind = crng.below(20);
     let seq: Vec<(String, String)> = if kind < 2 {
       gen_history(&mut crng, &mut feats)
+    } else if kind == 4 {
+      // the same pattern text under different flags, back to back (caches keyed on the text alone)
+      feats.push("kind=flag-flip");
+      let u = crng.chance(1, 2);
+      let mut p = match crng.below(4) {
+        0 => crng.pick(NASTY).to_string(),
+        1 => crng.pick(&["a{", "\\u{61}", "(?<a>x)\\k<a>", "\\k<a>", "[\\d-x]", "\\-", "}", "a{1", "\\p{L}", "(?=a)*"]).to_string(),
+        _ => gen_pattern(&mut crng, u, &mut feats),
+      };
+      if crng.chance(1, 2) {
+        let at = crng.below(p.chars().count() + 1);
+        let cs: Vec<char> = p.chars().collect();
+        p = format!("{}😀{}", cs[..at].iter().collect::<String>(), cs[at..].iter().collect::<String>());
+      }
+      let flags: &[&str] = match crng.below(4) {
+        0 => &["u", ""],
+        1 => &["", "u"],
+        2 => &["u", "", "u"],
+        _ => &["g", "gu", "g"],
+      };
+      flags.iter().map(|f| (p.clone(), f.to_string())).collect()
     } else if kind < 4 {
       // consecutive prefixes of one pattern, one mode
       feats.push("kind=prefix-run");
